@@ -15,7 +15,10 @@ RULE = (
     "uniform or per-pixel sub-size, positive adapt images with a drawn dynamic range (0..6 decades), coefficients and "
     "signal scales log-uniform in [1e-2, 1e2] with explicit exact-equality classes: coefficient exactly 1.0 (one draw in "
     "five), inner_coefficient == outer_coefficient (one in three), signal_scale exactly 1.0 and exactly 0 (one in six each). "
-    "One sub-check per scheme family: neighbour-difference (Constant, "
+    "Coincident vertices (nominally one Delaunay case in four in every sub-check, and every case of the dedicated "
+    "coincident-vertices sub-check, which runs the neighbour-difference family): 1-2 vertices moved onto another vertex exactly "
+    "or to within 1e-15..1e-12 of the extent; qhull drops one vertex of such a pair, which then has ZERO neighbours (labelled "
+    "zero-neighbour-pixels:k). One sub-check per scheme family: neighbour-difference (Constant, "
     "ConstantZeroth, AdaptiveBrightness), zeroth (Zeroth, BrightnessZeroth), split-cross on Delaunay meshes (ConstantSplit, "
     "AdaptiveBrightnessSplit, AdaptiveBrightnessSplitZeroth), kernel (GaussianKernel scale 0.3..1.5 pixel widths on "
     "rectangular / 0.3..4 x minimum vertex separation on Delaunay meshes, ExponentialKernel 0.3..16 x). Oracle per matrix: "
@@ -33,7 +36,13 @@ RULE = (
     "triple makes h undecidable) and equal the edge set of mesh.delaunay.simplices, which must tile the convex hull "
     "(non-degenerate, no vertex inside a simplex, areas sum to the monotone-chain hull area within 1e-9) with Delaunay edges "
     "only; when co-circular vertices make the Delaunay triangulation non-unique, the neighbouring pairs of the quadratic form "
-    "are the edges of that validated triangulation the mapper interpolates on. Block assembly: inversion.regularization_matrix == block diagonal, in object order, of each "
+    "are the edges of that validated triangulation the mapper interpolates on. For vertex sets with coincident vertices the "
+    "reference adjacency is scipy.spatial.Delaunay(vertices) computed in the harness (vp/ref/meshadj.py): simplex edges are the "
+    "neighbouring pairs, a vertex in no simplex has none; the library's neighbour list must equal it and report sizes == 0 for "
+    "dropped vertices; every oracle applies unchanged (full parameter count, symmetry, strict definiteness, quadratic form in "
+    "which a neighbour-less pixel contributes only its 1e-8 ridge term); the exact planarity / Euler-count tests are replaced by "
+    "cross-checks of the reference (dropped vertex within 1e-11 of another one, simplices cover the hull, edges between the "
+    "brute-force certain and possible sets; a reference failing them is counted as a tie). Block assembly: inversion.regularization_matrix == block diagonal, in object order, of each "
     "object's matrix computed on freshly built objects (zero block for an unregularized object, zero off-diagonal blocks), "
     "regularization_matrix_reduced == that matrix with the unregularized objects' rows/columns deleted. Scheme re-assignment: "
     "1-2 objects, optional first read, then 2-3 generated steps that re-assign `regularization` of one object (another scheme, "
@@ -68,6 +77,13 @@ ASSUMPTIONS = [
     "independent of the adapt image); it is generated as an explicit class and only the statement's own clauses are demanded of it",
     "re-assignment: the matrix must follow the scheme the object currently carries (the library's own idiom is copy.copy(mapper) + "
     "mapper.regularization = ...); compared with freshly built objects at 1e-12*max|H|",
+    "coincident Delaunay vertices: probed on the unchanged code -- the mesh, the mapper and all nine schemes (plus "
+    "AdaptiveBrightnessSplitZeroth) build and return finite matrices for exactly duplicated and 1e-15..1e-12-near-duplicated "
+    "vertices, so no precondition is needed; which vertex of a pair qhull drops is taken from scipy's own triangulation of the same "
+    "points (qhull is trusted, the library's use of it is not); kernel schemes then have cond(covariance) >= 1e8 and fall into the "
+    "stated Cholesky tie band; for some coincident sets (e.g. four distinct co-circular points left) qhull cannot build the Voronoi "
+    "diagram and the library raises its MeshException from mesh.voronoi (split-cross schemes, edge_pixel_list): treated as a "
+    "precondition, labelled duplicates:mesh-exception-precondition and counted as a tie",
     "prior reads are read-only uses of documented public properties / methods; a read that raises is labelled and ignored (other "
     "properties judge it), the matrix must still be right afterwards",
     "MaternKernel cannot be constructed without numba_scipy and is outside the statement's quantifier; "
@@ -168,6 +184,8 @@ def adapt_images(draw, n):
 
 
 MIN_JITTER = 1.0e-3
+DUP_EPS = [1e-15, 0.0, 1e-14, 0.0, 1e-13, 1e-12]
+DUP_DIRS = [(1.0, 0.0), (0.0, 1.0), (1.0, -0.7), (-0.6, -1.0)]
 
 
 # reads a caller may perform on the mesh / mapper / scheme before asking for the regularization matrix; the edge-pixel reads are
@@ -205,16 +223,31 @@ def _general_position(draw, obj):
         # taken and whether flat simplices appear; no statement about the library can be tested there
         obj["jitter"] = [0.0 if abs(v) < MIN_JITTER / 2 else (MIN_JITTER if v > 0 else -MIN_JITTER) if abs(v) < MIN_JITTER else v
                          for v in obj["jitter"]]
+        # coincident vertices (nominally one case in four): 1-2 vertices are moved onto another vertex exactly or to within
+        # 1e-15..1e-12 of the extent of the set; qhull drops one vertex of such a pair, which then has NO neighbours
+        if draw(st.sampled_from([False, True, False, False, False, True, False, False])):
+            obj["dups"] = _draw_dups(draw, obj)
     return obj
 
 
+def _draw_dups(draw, obj):
+    n = obj["lattice"][0] * obj["lattice"][1]
+    idx = draw(st.permutations(list(range(n))))
+    dups = []
+    for q in range(draw(st.sampled_from([1, 1, 2]))):
+        dups.append([idx[2 * q], idx[2 * q + 1], draw(st.sampled_from(DUP_EPS)), draw(st.integers(0, len(DUP_DIRS) - 1))])
+    return dups
+
+
 @st.composite
-def scheme_cases(draw, family):
+def scheme_cases(draw, family, force_dups=False):
     img = draw(scene.imaging_cases(max_inner=4, max_k=1, kernel_kinds=("nonneg",), data_kind="positive"))
     n = sum(1 for r in img["mask"] for v in r if not v)
-    kinds = ("delaunay",) if family == "split" else ("rect", "delaunay")
+    kinds = ("delaunay",) if family == "split" or force_dups else ("rect", "delaunay")
     obj = draw(scene.obj_specs(n, kinds=kinds, reg_types=("constant",), reg_none=False, max_sub=2, max_mesh=5))
     obj = _general_position(draw, obj)
+    if force_dups and not obj.get("dups"):
+        obj["dups"] = _draw_dups(draw, obj)
     obj["reg"] = draw(reg_spec(FAMILIES[family], obj["type"]))
     img["objs"] = [obj]
     img["adapt"] = draw(adapt_images(n))
@@ -317,6 +350,25 @@ def build_reg(spec, min_sep):
     return scene.build_reg(spec, min_sep)
 
 
+def _with_duplicated_vertices(spec, info, mask, adapt):
+    """Rebuild the Delaunay mapper of scene.build_linear_obj with vertex b moved onto vertex a (+ eps * extent * direction)
+    for every [a, b, eps, direction] of spec["dups"]."""
+    import autoarray as aa
+    verts = np.array(info["vertices"], dtype=float)
+    ext = float(np.ptp(verts, axis=0).max())
+    for a, b, eps, d in spec["dups"]:
+        verts[b] = verts[a] + eps * ext * np.asarray(DUP_DIRS[d])
+    info = dict(info)
+    info["vertices"] = verts
+    mesh = aa.Mesh2DDelaunay(values=verts.copy())
+    osamp = scene.over_sampler_for(mask, spec["sub"])
+    mg = aa.MapperGrids(mask=mask, source_plane_data_grid=aa.Grid2DIrregular(values=np.array(info["source_grid"], dtype=float)),
+                        source_plane_mesh_grid=mesh, image_plane_mesh_grid=None, adapt_data=adapt)
+    info["mesh"] = mesh
+    info["over_sampler"] = osamp
+    return aa.Mapper(mapper_grids=mg, over_sampler=osamp, regularization=None), info
+
+
 def build_objs(case):
     """Fresh mask, adapt image and linear objects (regularization attached) for a case."""
     import autoarray as aa
@@ -326,6 +378,8 @@ def build_objs(case):
     for spec in case["objs"]:
         bare = dict(spec); bare["reg"] = None
         obj, info = scene.build_linear_obj(bare, mask, adapt)
+        if spec.get("dups") and spec["type"] == "delaunay":
+            obj, info = _with_duplicated_vertices(spec, info, mask, adapt)
         obj.regularization = build_reg(spec.get("reg"), info.get("min_sep", 1.0))
         objs.append(obj); infos.append(info)
     return mask, objs, infos
@@ -366,6 +420,8 @@ def reference_pairs(spec, info, obj, ctx, key=None):
             for i, j in pairs:
                 deg[i] += 1; deg[j] += 1
             return pairs, deg
+        if spec.get("dups"):
+            return _pairs_with_duplicates(spec, verts, obj, ctx, mk)
         strict, possible = meshadj.delaunay_pairs(verts)
         nb = obj.neighbors
         impl, _ = meshadj.pairs_from_neighbor_lists(np.asarray(nb), np.asarray(nb.sizes))
@@ -405,6 +461,38 @@ def reference_pairs(spec, info, obj, ctx, key=None):
     for i, j in pairs:
         deg[i] += 1; deg[j] += 1
     return pairs, deg
+
+
+def _pairs_with_duplicates(spec, verts, obj, ctx, mk):
+    """Vertex sets with (nearly) coincident vertices.  Reference = scipy.spatial.Delaunay of the vertices computed here:
+    its simplex edges are the neighbouring pairs and a vertex qhull dropped (in no simplex) has no neighbours.  That
+    reference is itself cross-checked (a dropped vertex must coincide with another one within 1e-11 of the extent, the
+    simplices must cover the hull, the edges must lie between the brute-force certain / possible Delaunay edges); the
+    exact planarity / Euler-count tests are not applied (undecidable next to a near-duplicate)."""
+    n = len(verts)
+    exact = any(np.array_equal(verts[a], verts[b]) for a, b, _, _ in spec["dups"])
+    ctx.label("vertices:duplicated", "duplicates:%d" % len(spec["dups"]),
+              "duplicates:exact" if exact else "duplicates:near-only")
+    edges, absent, simplices = meshadj.scipy_triangulation(verts)
+    ctx.label("zero-neighbour-pixels:%d" % len(absent))
+    far = [v for v in absent if meshadj.nearest_other_distance(verts, v) > 1e-11]
+    area = meshadj.simplices_area_defect(verts, simplices)
+    strict, possible = meshadj.delaunay_pairs(verts)
+    if far or area or not (strict <= edges <= possible):
+        # qhull itself misbehaves on this set: nothing about the library can be concluded
+        ctx.tie(); ctx.label("duplicates:reference-triangulation-not-validated")
+    nb = obj.neighbors
+    sizes = np.asarray(nb.sizes)
+    impl, _ = meshadj.pairs_from_neighbor_lists(np.asarray(nb), sizes)
+    ctx.check(impl == edges, mk + "/duplicates/neighbours-differ-from-triangulation",
+              lambda: "neighbour pairs differ from the edges of scipy.spatial.Delaunay(vertices): missing %s, extra %s" % (
+                  sorted(edges - impl), sorted(impl - edges)))
+    ctx.check(len(sizes) == n and all(int(sizes[v]) == 0 for v in absent), mk + "/duplicates/dropped-vertex-has-neighbours",
+              lambda: "vertices %s are in no simplex but neighbors.sizes there is %s" % (absent, [int(sizes[v]) for v in absent]))
+    deg = np.zeros(n, dtype=int)
+    for i, j in edges:
+        deg[i] += 1; deg[j] += 1
+    return edges, deg
 
 
 def form_matrix(n, pairs, pair_weight):
@@ -566,6 +654,15 @@ def body_scheme(case, ctx):
         status = do_read(obj, r)
         ctx.label("prior-read:%s" % r if status == "ok" else "prior-read-%s:%s" % (status, r))
     ctx.label("prior-reads:%d" % len(case.get("prior", [])))
+    if spec.get("dups"):
+        # coincident vertices: the split-cross schemes need the Voronoi diagram, which qhull cannot build for some of these
+        # sets; the library signals that with MeshException (its declared "ill-posed mesh" error): a precondition, not a defect
+        from autoarray import exc
+        try:
+            reg.regularization_matrix_from(linear_obj=obj)
+        except exc.MeshException:
+            ctx.tie(); ctx.label("duplicates:mesh-exception-precondition")
+            return
     h = ctx.impl(key + "/matrix", lambda: reg.regularization_matrix_from(linear_obj=obj))
     h = np.array(h, dtype=float) if isinstance(h, np.ndarray) else h
     if isinstance(h, np.ndarray):
@@ -613,7 +710,7 @@ def body_scheme(case, ctx):
             x = np.asarray(xv, dtype=float)
             got = float(x @ h @ x)
             want = form_value(x, pairs, pw)
-            atol = 32.0 * EPS * float(np.abs(x) @ np.abs(h) @ np.abs(x))
+            atol = 32.0 * EPS * float(np.abs(x) @ np.abs(h) @ np.abs(x)) + 1e-290   # floor: denormal products carry no digits
             ctx.close(got, want, key + "/quadratic-form", rtol=1e-9, atol=atol,
                       what="x^T H x vs sum over neighbouring pairs (+1e-8|x|^2), vector %d" % k)
         # (b) polarisation: the symmetric part of H is the matrix of the stated quadratic form
@@ -644,10 +741,13 @@ def _settings(aa):
 
 def body_blocks(case, ctx):
     import autoarray as aa
+    if not voronoi_precondition_ok(case, ctx):
+        return
     specs = case["objs"]
     ctx.label("objs:%d" % len(specs))
     for s in specs:
         ctx.label("obj:%s" % s["type"], "reg:none" if s.get("reg") is None else "reg:%s" % s["reg"]["type"])
+        ctx.label("vertices:duplicated" if s.get("dups") else None)
     # reference blocks from freshly built, independent objects
     _, ref_objs, _ = build_objs(case)
     blocks, has_reg = [], []
@@ -714,6 +814,23 @@ def body_blocks(case, ctx):
 # ---------------------------------------------------------------------------------------------
 # re-use of a linear object with another scheme
 # ---------------------------------------------------------------------------------------------
+def voronoi_precondition_ok(case, ctx):
+    """Multi-object bodies: a Delaunay object with coincident vertices whose Voronoi diagram qhull cannot build (library
+    raises MeshException from mesh.voronoi; needed by split-cross schemes and edge_pixel_list) is outside the domain."""
+    if not any(o.get("dups") for o in case["objs"]):
+        return True
+    from autoarray import exc
+    _, objs, _ = build_objs(case)
+    for o, spec in zip(objs, case["objs"]):
+        if spec.get("dups"):
+            try:
+                o.source_plane_mesh_grid.voronoi
+            except exc.MeshException:
+                ctx.tie(); ctx.label("duplicates:mesh-exception-precondition")
+                return False
+    return True
+
+
 def _fresh_blocks(case, regs):
     """Matrices of freshly built objects carrying `regs` (zero block for None)."""
     c = dict(case)
@@ -738,6 +855,8 @@ def _block_diag(blocks):
 def body_reuse(case, ctx):
     import copy
     import autoarray as aa
+    if not voronoi_precondition_ok(case, ctx):
+        return
     mask, objs, infos = build_objs(case)
     dataset = scene.build_imaging(case, mask)
     cur = [o["reg"] for o in case["objs"]]
@@ -806,11 +925,14 @@ def body_reuse(case, ctx):
 # ---------------------------------------------------------------------------------------------
 def body_after_reconstruction(case, ctx):
     import autoarray as aa
+    if not voronoi_precondition_ok(case, ctx):
+        return
     specs = case["objs"]
     kinds = "+".join(sorted({s["type"] for s in specs}))
     ctx.label("objs:%d" % len(specs), "kinds:%s" % kinds)
     for s in specs:
         ctx.label("obj:%s" % s["type"], "reg:none" if s.get("reg") is None else "reg:%s" % s["reg"]["type"])
+        ctx.label("vertices:duplicated" if s.get("dups") else None)
     regs = [s.get("reg") for s in specs]
     blocks = _fresh_blocks(case, regs)
     want = _block_diag(blocks)
@@ -870,7 +992,9 @@ SUBCHECKS = [
     SubCheck("split-schemes", body_scheme, strategy=scheme_cases("split"),
              examples=_ex(480, 9600), shards=_ex(3, 16)),
     SubCheck("kernel-schemes", body_scheme, strategy=scheme_cases("kernel"),
-             examples=_ex(480, 9600), shards=_ex(3, 16)),
+             examples=_ex(320, 9600), shards=_ex(2, 16)),
+    SubCheck("coincident-vertices", body_scheme, strategy=scheme_cases("neighbour", force_dups=True),
+             examples=_ex(200, 6400), shards=_ex(1, 16)),
     SubCheck("block-assembly", body_blocks, strategy=block_cases(),
              examples=_ex(360, 7200), shards=_ex(2, 16)),
     SubCheck("scheme-reassignment", body_reuse, strategy=reuse_cases(),
